@@ -211,4 +211,17 @@ theorem start_on_any_storage (host : Bytes) :
 
 example : startClient .nothing [0x68] = .ok (blankClient [0x68]) ∧ (blankClient [0x68]).runsKeyExchange = true := by decide
 
+/-- Which storage a `Config` is served by ("if SessionStorage is nil, AuthKeyFile is required, otherwise it will be
+ignored"): a given `SessionStorage` is the one used — for EVERY `AuthKeyFile`, empty or not, whatever is at that path —,
+so the client resumes with what that storage holds and saves into it; without one the file loader on a non-empty
+`AuthKeyFile`; with neither there is no client. -/
+theorem given_storage_is_used {σ : Type} :
+    (∀ (s : σ) (f : Path), chooseStorage (some s) f = .given s) ∧
+    (∀ f : Path, f ≠ [] → chooseStorage (σ := σ) none f = .file f) ∧
+    chooseStorage (σ := σ) none [] = .none := by
+  refine ⟨fun _ _ => rfl, fun f hf => ?_, rfl⟩
+  simp [chooseStorage, hf]
+
+example : chooseStorage (some (7 : Nat)) [0x2f, 0x78] = .given 7 := (given_storage_is_used.1 7 _)
+
 end Mtv.Session
